@@ -105,7 +105,7 @@ var c03Alphabet = func() []buildOp {
 		// what Encode is for: the caller edits the attribute list, then re-encodes (only with two or more attributes,
 		// see the note on Encode and an emptied list in DESIGN 9.4)
 		buildOp{Name: "drop the first attribute; Encode", Do: func(m *stun.Message) {
-			if len(m.Attributes) >= 2 {
+			if len(m.Attributes) >= 1 {
 				m.Attributes = m.Attributes[1:]
 				m.Encode()
 			}
